@@ -202,6 +202,21 @@ def gen_plan(seed, tier):
                            {"k": "read", "name": x}])]
         at = rng.randrange(len(ops) + 1)
         ops[at:at] = seq
+    # a delete whose packed-refs rewrite cannot happen (the lock of a crashed
+    # or concurrent packer is in the way) while the loose file shadows an
+    # *older* packed value: the ref keeps its value or goes, it never falls
+    # back (own generator: the other plans of a seed stay what they were)
+    drng = random.Random(derive_seed(seed, "c16del"))
+    if backend == "files" and drng.random() < 0.08:
+        nv[0] += 2
+        seq = [{"k": "set", "name": A, "new": val(nv[0] - 1)},
+               {"k": "pack", "all": True},
+               {"k": "set", "name": A, "new": val(nv[0])},
+               {"k": "stale_lock", "name": "packed-refs", "then": "rm",
+                "new": val(nv[0])},
+               {"k": "read", "name": A}]
+        at = drng.randrange(len(ops) + 1)
+        ops[at:at] = seq
     init_packed = {}
     if backend == "files" and rng.random() < 0.5:
         for nm in rng.sample([A, B, T, RM, C_], rng.randint(1, 3)):
